@@ -92,6 +92,9 @@ def bounds(tier):
         "al_kinds": list(TENSOR_KINDS + LAZY_KINDS + OTHER_KINDS),
         "al_names": "every ordered subset (incl. every permutation) of the source inputs, <= 4 inputs",
         "al_interpretations": ["eager", "lazy", "reflect", "normalize"] if th else ["eager", "lazy"],
+        "ale": "every lazy kind x every permutation as align argument (source orders: all if thorough else sorted prefix "
+        "and its reverse) x align under eager/lazy (quick: lazy only for the Contraction kinds); the aligned term r as left and right operand of sub/truediv/lt with "
+        "a Tensor, a Number and another aligned term, under neg, and under reduce(add); %d expressions" % len(ALE_EXPRS),
         "at_pool": {k: v for k, v in ATPOOL.items() if th or k != "d"},
         "at_event_shapes": [[], [2]],
         "at_enumeration": "align_tensor: every ordered subset as new_inputs x every ordered sub-subset as x; "
@@ -239,8 +242,27 @@ def mat_cases(tier):
     return [["mat", t, it] for t in mat_pool(tier) for it in ("eager", "lazy")]
 
 
+def ale_cases(tier):
+    """Aligned lazy terms inside an enclosing expression (the eager rules that strip an Align wrapper)."""
+    th = tier == "thorough"
+    names = list(POOL)
+    out = []
+    for n in range(1, len(names) + 1):
+        if th:
+            orders = [list(o) for o in itertools.permutations(names, n)]
+        else:  # quick: the sorted prefix and its reverse as source order, every permutation as request
+            orders = [names[:n]] + ([names[:n][::-1]] if n > 1 else [])
+        for order in orders:
+            for req in itertools.permutations(order):
+                for kind in LAZY_KINDS:
+                    # quick: outside the Contraction kinds align() under lazy builds the same Align term as under eager
+                    for it in (("eager", "lazy") if th or kind.startswith("contraction") else ("eager",)):
+                        out.append(["ale", kind, order, list(req), it])
+    return out
+
+
 def cases(tier):
-    return mat_cases(tier) + at_cases(tier) + rt_cases(tier) + al_cases(tier)
+    return mat_cases(tier) + at_cases(tier) + rt_cases(tier) + al_cases(tier) + ale_cases(tier)
 
 
 def describe(case):
@@ -811,6 +833,96 @@ def check_al(case, seed):
 
 
 # ---------------------------------------------------------------------------
+# family ale: an aligned lazy term inside an enclosing expression
+#   (code, site, reference(v, c, w) with v = value of x, c = value of the Tensor operand, w = value of the other
+#    aligned term ry = (2*x).align(names))
+
+ALE_EXPRS = [
+    ("r - c", "Binary(Align,Funsor)", "sub", lambda v, c, w: v - c),
+    ("c - r", "Binary(Funsor,Align)", "sub", lambda v, c, w: c - v),
+    ("r / c", "Binary(Align,Funsor)", "truediv", lambda v, c, w: v / c),
+    ("c / r", "Binary(Funsor,Align)", "truediv", lambda v, c, w: c / v),
+    ("r < c", "Binary(Align,Funsor)", "lt", lambda v, c, w: float(v < c)),
+    ("c < r", "Binary(Funsor,Align)", "lt", lambda v, c, w: float(c < v)),
+    ("r - Number(1.5)", "Binary(Align,Funsor)", "sub", lambda v, c, w: v - 1.5),
+    ("Number(1.5) - r", "Binary(Funsor,Align)", "sub", lambda v, c, w: 1.5 - v),
+    ("Number(1.5) / r", "Binary(Funsor,Align)", "truediv", lambda v, c, w: 1.5 / v),
+    ("r - ry", "Binary(Align,Align)", "sub", lambda v, c, w: v - w),
+    ("ry / r", "Binary(Align,Align)", "truediv", lambda v, c, w: w / v),
+    ("r < ry", "Binary(Align,Align)", "lt", lambda v, c, w: float(v < w)),
+    ("-r", "Unary(Align)", "neg", lambda v, c, w: -v),
+]
+
+
+def check_ale(case, seed):
+    from funsor.terms import Funsor
+
+    key = json.dumps(case)
+    _, kind, order, req, interp = case
+    order, req = list(order), list(req)
+    src, doms, ref, out_real = al_build(kind, order, seed)
+    first = order[0]
+    C = lang.generic_fill(11, (POOL[first],), seed)
+    names = tuple(req)
+    src += "\n" + tensor_src("c", C, [first], doms)
+    src += "\nwith lazy:\n    y = x * Number(2.0)\nwith %s:\n    r = x.align(%r)\n    ry = y.align(%r)\n" % (interp, names, names)
+    env = ns()
+    try:
+        run_src(src, env)
+    except Exception as ex:
+        return core.decline(key, "build:" + type(ex).__name__)
+    r = env["r"]
+    rcls = type(r).__name__.split("[")[0]
+    inames = list(doms)
+    pts = [dict(zip(inames, idx)) for idx in itertools.product(*[range(doms[n][1]) for n in inames])]
+    vals = [float(ref(p)) for p in pts]
+    ntrans, ncompared, counters = 0, 0, {}
+    exprs = list(ALE_EXPRS) + [("r.reduce(ops.add, %r)" % first, "Reduce(Align)", "reduce-add", None)]
+    for code_, site, opname, fn in exprs:
+        feats = {"kind": kind, "interp": interp, "n": len(doms), "op": opname, "expr": code_, "aligned_cls": rcls}
+        body = src + "e = %s\nprint(e)\n" % code_
+        try:
+            e = eval(code_, env)
+        except Exception as ex:
+            counters["ale_declined:" + type(ex).__name__] = counters.get("ale_declined:" + type(ex).__name__, 0) + 1
+            continue
+        if not isinstance(e, Funsor):
+            counters["ale_declined:not-a-funsor"] = counters.get("ale_declined:not-a-funsor", 0) + 1
+            continue
+        if set(e.inputs) - set(doms):
+            return _viol(case, site, "inputs-changed", "%s has inputs %s, the term has %s" % (code_, list(e.inputs), inames), body, feats)
+        lazy_here = False
+        for p, v in zip(pts, vals):
+            if fn is None:
+                if p[first] != 0:
+                    continue
+                want = sum(vals[i] for i, q in enumerate(pts) if all(q[n] == p[n] for n in inames if n != first))
+                pp = {n: p[n] for n in inames if n != first}
+            else:
+                want = fn(v, float(C[p[first]]), 2.0 * v)
+                pp = p
+            try:
+                have = observe.ground(e, pp)
+            except observe.Decline as d:
+                lazy_here = str(d)
+                break
+            ntrans += 1
+            if not observe.values_equal(np.asarray(have, dtype=np.float64), np.float64(want), "real"):
+                return _viol(case, site, "value", "with r = x.align(%r) (a %s), %s at %s: expected %s, got %s"
+                             % (names, rcls, code_, pp, want, np.asarray(have).tolist()),
+                             body + "print(e(%s))\n" % point_src(pp), feats)
+        if lazy_here:
+            k2 = "ale_declined:" + lazy_here.split(":")[0]
+            counters[k2] = counters.get(k2, 0) + 1
+        else:
+            ncompared += 1
+    if not ncompared:
+        return core.decline(key, "no-enclosing-expression-grounded")
+    counters["ale_expressions"] = ncompared
+    return core.ok(key, rcls == "Align", "ale:%s:%s:%d-of-%d" % (kind, rcls, ncompared, len(exprs)), transitions=ntrans, counters=counters)
+
+
+# ---------------------------------------------------------------------------
 # family at: align_tensor / align_tensors
 
 
@@ -1076,6 +1188,8 @@ def check(case, seed):
         return check_rtg(case, seed)
     if fam == "al":
         return check_al(case, seed)
+    if fam == "ale":
+        return check_ale(case, seed)
     if fam in ("at", "at1", "atn"):
         return check_at(case, seed)
     if fam == "mat":
